@@ -1,5 +1,6 @@
 import sys, time
-sys.path.insert(0,'/repo'); sys.path.insert(0,'/tmp/probe')
+sys.path.insert(0,'/tmp/probe')
+if not any(p.endswith('fixed') for p in sys.path): sys.path.insert(0,'/repo')
 import z3
 from hidc.lexer import SourceCode
 from hidc.parser import parse
@@ -13,7 +14,7 @@ def check(src, argspec, ws=2, stack=200, checked=True, verbose=False, assume=Non
     prog = parse(SourceCode.from_string(src)).evaluate(env)
     lines = list(CodeGen(env, ws, stack, not checked).gen_lines())
     P = assemble(lines, argspec)
-    vm = VM2(P); t = time.time(); vres = vm.run(); tv = time.time() - t
+    vm = VM2(P, max_steps=int(__import__('os').environ.get('VMSTEPS', '200000'))); t = time.time(); vres = vm.run(); tv = time.time() - t
     # RI args from VM inputs
     args = {}
     for name, vals in vm.inputs.items():
@@ -23,7 +24,7 @@ def check(src, argspec, ws=2, stack=200, checked=True, verbose=False, assume=Non
         else:
             v = vals[0]; args[name] = v if isinstance(v, int) else (z3.ZeroExt(8*ws - v.size(), v) if v.size() < 8*ws else v)
     ri = RI(prog, env, ws, args, checked=checked); t = time.time(); rres = ri.run_all(); tr = time.time() - t
-    s = z3.Solver(); s.set('timeout', 60000)
+    s = z3.Solver(); s.set('timeout', 8000)
     bad = 0; nq = 0
     def Zv(v, n): return z3.BitVecVal(v, n) if isinstance(v, int) else v
     for vk, vc, vev, vinfo in vres:
@@ -37,7 +38,14 @@ def check(src, argspec, ws=2, stack=200, checked=True, verbose=False, assume=Non
                 else:
                     diffs = [Zv(a[1], 8 if a[0] == 'out' else 8*ws) != Zv(b[1], 8 if a[0] == 'out' else 8*ws) for a, b in zip(vev, rev) if a[0] != 'flag' and not (isinstance(a[1], int) and isinstance(b[1], int) and a[1] == b[1])]
                     if diffs:
-                        s.add(z3.Or(*diffs)); r = s.check(); nq += 1
+                        import uf; uf._cache.clear()
+                        fns = {}
+                        s2 = z3.Solver(); s2.set('timeout', 8000)
+                        for c in list(vc) + list(rc): s2.add(uf.uf_abstract(c, fns))
+                        s2.add(uf.uf_abstract(z3.Or(*diffs), fns))
+                        r = s2.check(); nq += 1
+                        if r != z3.unsat:
+                            s.add(z3.Or(*diffs)); r = s.check()
                         if r != z3.unsat:
                             bad += 1; print('  VALUE MISMATCH', r, s.model() if r == z3.sat else '')
             s.pop()
